@@ -119,7 +119,8 @@ RULE_PROPS = {
     "ReadOnlyOpMutates": ["C15"], "OutsideMutation": ["C15"],
     "FailedOrReadChangesNothing": ["C13", "C15"],
     "RecordsResolvable": ["C04", "C13"], "RecordsResolvableEnd": ["C04", "C13"],
-    "CrashLeft": ["C04", "C03"], "CrashAtomic": ["C04", "C13"],
+    "CrashLeft": [],                       # shape of what a kill left (model drift only; CrashAtomic decides)
+    "CrashAtomic": ["C04", "C13"],
     "Truthful": ["C13"], "OthersUntouched": ["C13"], "Returned": ["C20", "C13"], "EndStable": ["C07"],
     "Hang": ["C20", "C13"],
 }
@@ -311,6 +312,16 @@ def write_variants(rng, tier, lanes=("S", "Aa", "Ta")):
         out.append({"lane": lane, "n": 600, "how": "streamed", "keyed": False, "chunks": 2, "declare": True})
         out.append({"lane": lane, "n": 600, "how": "streamed", "keyed": True, "chunks": 2, "declare": True,
                     "declare_wrong": 5})
+        # by-address writers with a declared size other than what is written: the memory-mapped
+        # file is longer (padding must never be published) or shorter (overflow to plain writes)
+        out.append({"lane": lane, "n": 600, "how": "streamed", "keyed": False, "chunks": 2, "declare": True,
+                    "declare_wrong": 3000})
+        out.append({"lane": lane, "n": 600, "how": "streamed", "keyed": False, "chunks": 3, "declare": True,
+                    "declare_wrong": -250})
+        out.append({"lane": lane, "n": 0, "how": "streamed", "keyed": False, "chunks": 1, "declare": True,
+                    "declare_wrong": 4096})
+        out.append({"lane": lane, "n": 900, "how": "streamed", "keyed": True, "chunks": 2, "declare": True,
+                    "declare_wrong": -1, "algo": "sha512"})
         out.append({"lane": lane, "n": 300, "how": "oneshot", "keyed": True, "warm": "other"})
         out.append({"lane": lane, "n": 300, "how": "oneshot", "keyed": True, "warm": "same_address"})
         for n in ([MIB + 1] if q else [MIB - 1, MIB, MIB + 1]):
